@@ -6,7 +6,7 @@
                           formats regenerated from src/registry/export_sdl.rs);
    parse_sdl, p_*       = the reader written from the type-system grammar;
    abs_sdl, abs_registry, describes = the plain type-system view and "T ≈ abs R";
-   known_class          = the seven classes in which today's exporter fails. *)
+   known_class          = the classes in which today's exporter fails. *)
 From AG Require Import ValueText Sdl SdlProofs.
 From Coq Require String.
 Import Coq.Strings.String.StringSyntax.
@@ -14,17 +14,20 @@ Open Scope N_scope.
 
 (* ---- per-printer, token level, all inputs outside the known classes ---- *)
 
-(* escape_string: every reason without a double quote / unlisted control
-   character is read back by the grammar's StringValue reader, whatever follows *)
+(* escape_string (repaired: double quotes and all control characters are
+   escaped): EVERY reason is read back by the grammar's StringValue reader,
+   whatever follows *)
 Theorem C17_escape_string_roundtrip : forall r acc rest,
-    existsb bad_reason_char r = false ->
     read_chars (escape_string r ++ 34 :: rest) acc = Some (rev acc ++ r, rest).
 Proof. exact escape_string_read. Qed.
 
+(* the former class 1 is empty *)
+Theorem C17_reason_class_empty : forall r, existsb bad_reason_char r = false.
+Proof. exact bad_reason_never. Qed.
+
 (* write_deprecated with a reason = exactly the directive @deprecated(reason: r),
-   followed by whatever directives follow *)
+   followed by whatever directives follow — for every reason *)
 Theorem C17_deprecated_reason_roundtrip : forall F k r rest,
-    existsb bad_reason_char r = false ->
     p_dirs (S F) (S k) (write_deprecated (Depr (Some r)) ++ rest) =
     match p_dirs (S F) k rest with
     | Some (l, r') => Some (DInv T_deprecated [(T_reason, CStr r)] :: l, r')
@@ -97,9 +100,12 @@ Proof. exact rich_registry_roundtrip. Qed.
 
 (* ---- refutations: today's exporter, one witness per class (each replayed on
         the real code by the harness corpus) ---- *)
-Theorem C17_deprecated_refuted :
-  known_class o_plain R_reason = 1 /\ parse_sdl (export_sdl o_plain R_reason) = None.
-Proof. exact deprecated_refuted. Qed.
+(* class 1 (deprecation-reason-unescaped) is repaired: the former witness and a
+   reason with control characters, a quote and a backslash read back *)
+Theorem C17_deprecated_fixed :
+  known_class o_plain R_reason = 0 /\
+  describes o_plain R_reason (parse_sdl (export_sdl o_plain R_reason)) = true.
+Proof. exact deprecated_fixed. Qed.
 
 Theorem C17_default_refuted :
   known_class o_plain R_default = 2 /\
@@ -143,7 +149,6 @@ Theorem C17_specified_by_refuted :
 Proof. exact specified_by_refuted. Qed.
 
 Check C17_escape_string_roundtrip : forall r acc rest,
-    existsb bad_reason_char r = false ->
     read_chars (escape_string r ++ 34 :: rest) acc = Some (rev acc ++ r, rest).
 Check C17_single_description_roundtrip : forall o level d rest,
     single_line_form o d = true -> single_bad d = false ->
@@ -152,6 +157,7 @@ Check C17_name_roundtrip : forall n rest,
     is_name n = true -> no_name_char rest -> p_name (n ++ rest) = Some (n, rest).
 
 Print Assumptions C17_escape_string_roundtrip.
+Print Assumptions C17_reason_class_empty.
 Print Assumptions C17_deprecated_reason_roundtrip.
 Print Assumptions C17_deprecated_bare_roundtrip.
 Print Assumptions C17_single_description_roundtrip.
@@ -160,7 +166,7 @@ Print Assumptions C17_type_roundtrip.
 Print Assumptions C17_implements_roundtrip.
 Print Assumptions C17_block_description_partial.
 Print Assumptions C17_roundtrip_partial.
-Print Assumptions C17_deprecated_refuted.
+Print Assumptions C17_deprecated_fixed.
 Print Assumptions C17_default_refuted.
 Print Assumptions C17_interface_header_refuted.
 Print Assumptions C17_block_description_refuted.
